@@ -528,6 +528,20 @@ func (r *Run) runHandlerOps(ctx context.Context, stream grpc.ServerStream) {
 				mutateMsg(msg)
 			}
 			r.rec(Event{Who: "h", Op: "send", Msg: snap, Err: err, Pan: pan})
+		case "spawn-send":
+			// a goroutine of the handler that still uses the stream after the handler returned
+			if stream == nil {
+				continue
+			}
+			msg := op.Msg
+			go func() {
+				<-r.handlerDone
+				var err error
+				pan := guard(func() { err = stream.SendMsg(msg) })
+				r.rec(Event{Who: "hg", Op: "late-send", Err: err, Pan: pan})
+				pan = guard(func() { stream.SetTrailer(metadata.MD{"late": {"x"}}); err = stream.SetHeader(metadata.MD{"late": {"y"}}) })
+				r.rec(Event{Who: "hg", Op: "late-meta", Err: err, Pan: pan})
+			}()
 		case "sendraw":
 			if stream == nil {
 				continue
@@ -845,6 +859,7 @@ func (r *Run) runClientOps(who string, st grpc.ClientStream, ops []Op) {
 			}
 			r.rec(Event{Who: who, Op: "send", Msg: snap, Err: err, Pan: pan})
 		case "close":
+			r.rec(Event{Who: who, Op: "close", Call: true})
 			var err error
 			pan := guard(func() { err = st.CloseSend() })
 			r.rec(Event{Who: who, Op: "close", Err: err, Pan: pan})
